@@ -250,7 +250,7 @@ def run(ctx):
 
     def fix(t, data):
         if t.base_kind == "name":
-            base = data.draw(st.sampled_from(["a", "b", "v", "foo"]))
+            base = data.draw(st.sampled_from(["a", "b", "v", "foo", "α", "Δt", "größe", "批次"]))  # any Python identifier is an axis name
         elif t.base_kind == "int":
             base = data.draw(st.sampled_from([0, 1, 3, 4, 12]))
         elif t.base_kind == "sym":
@@ -266,7 +266,7 @@ def run(ctx):
         toks = []
         for _ in range(n):
             if legal_bias:
-                toks.append(data.draw(gd.legal_token(allow_q=True, sym_names=["a", "b"], names=["a", "b", "foo"], vnames=["v"])))
+                toks.append(data.draw(gd.legal_token(allow_q=True, sym_names=["a", "b"], names=["a", "b", "foo", "α", "Δt"], vnames=["v", "ñ"])))
             else:
                 toks.append(fix(data.draw(anytok), data))
         seps = gd.whitespace_seps(data.draw, len(toks))
